@@ -20,7 +20,7 @@
 #include "simk.h"
 
 #define XP_MAXTRACE 4096
-#define XP_MAXCOUNTERS 40
+#define XP_MAXCOUNTERS 200
 #define XP_LOGMAX 16384
 #define XP_CRASHMAX 12000
 
@@ -33,7 +33,7 @@ struct xp_point {
 };
 
 struct counter {
-	char name[28];
+	char name[56];
 	long v;
 };
 
